@@ -26,6 +26,7 @@ M0 == [calls |-> <<>>,        \* k -> call record (function with a growing domai
        trClosed |-> FALSE,    \* the SDK closed the transport
        ready |-> FALSE,
        cleanup |-> FALSE,     \* the harness' own clean-up has begun: nothing after it is judged except the final line
+       closeB |-> {}, closeE |-> {}, waitB |-> {}, waitE |-> {},
        notices |-> {},        \* wire ids named by cancellation notices handed to the transport
        notifOk |-> {},        \* refs of notifications the transport accepted
        usable |-> TRUE]       \* no Close, fault or reader error so far
@@ -123,8 +124,6 @@ OnTrClose(e) ==
   /\ Check(l, "C05.TransportClosedOnlyAfterHandlers", \A r \in DOMAIN m.reqs : m.reqs[r].started => m.reqs[r].ended)
   /\ m' = [m EXCEPT !.trClosed = TRUE, !.usable = FALSE]
 
-OnTerm(e) == m' = [m EXCEPT !.term = TRUE]
-
 OnNotifyEnd(e) ==
   /\ Check(l, "C03.NotifyReturnsAfterHandOff", ~e.err => e.n \in m.notifOk)
   /\ m' = m
@@ -159,12 +158,10 @@ OnQuiesce1(e) ==
   /\ Check(l, "C02.DupInflightIdAnswered",
            m.usable /\ m.closeSeq = 0 /\ ~m.rdDown =>
                \A i \in DOMAIN m.idn : m.idn[i].deliv > 1 => m.idn[i].resp = m.idn[i].deliv)
-  /\ Check(l, "C05.CloseReturns",
-           \A i \in 1..(l - 1) : TraceLog[i].ev = "close.begin" =>
-               \E j \in 1..(l - 1) : TraceLog[j].ev = "close.end" /\ TraceLog[j].c = TraceLog[i].c)
-  /\ Check(l, "C05.WaitReturns",
-           m.term => \A i \in 1..(l - 1) : TraceLog[i].ev = "wait.begin" =>
-               \E j \in 1..(l - 1) : TraceLog[j].ev = "wait.end" /\ TraceLog[j].w = TraceLog[i].w)
+  \* a graceful Close waits for outgoing calls that the peer still owes an answer to (and whose callers
+  \* have not given up); with none of those outstanding, every Close has returned
+  /\ Check(l, "C05.CloseReturns", e.blockedCalls = <<>> => m.closeB \subseteq m.closeE)
+  /\ Check(l, "C05.WaitReturns", m.term => m.waitB \subseteq m.waitE)
   /\ Check(l, "C05.Removed", m.term => ~e.sessions)
   /\ Check(l, "C05.HandlersRanToCompletion", \A r \in DOMAIN m.reqs : m.reqs[r].started => m.reqs[r].ended)
 
@@ -190,9 +187,10 @@ Step(e) ==
     [] e.ev = "h.start"    -> OnHStart(e)
     [] e.ev = "h.ctxdone"  -> OnHCtxDone(e)
     [] e.ev = "h.end"      -> OnHEnd(e)
-    [] e.ev = "close.begin" -> m' = [m EXCEPT !.closeSeq = IF @ = 0 THEN e.seq ELSE @, !.usable = FALSE]
-    [] e.ev = "close.end"  -> OnTerm(e)
-    [] e.ev = "wait.end"   -> OnTerm(e)
+    [] e.ev = "close.begin" -> m' = [m EXCEPT !.closeSeq = IF @ = 0 THEN e.seq ELSE @, !.usable = FALSE, !.closeB = @ \cup {e.c}]
+    [] e.ev = "close.end"  -> m' = [m EXCEPT !.term = TRUE, !.closeE = @ \cup {e.c}]
+    [] e.ev = "wait.begin" -> m' = [m EXCEPT !.waitB = @ \cup {e.w}]
+    [] e.ev = "wait.end"   -> m' = [m EXCEPT !.term = TRUE, !.waitE = @ \cup {e.w}]
     [] e.ev = "cs"         -> m' = [m EXCEPT !.term = @ \/ (e.s.done /\ m.ready)]
     [] e.ev = "tr.close"   -> OnTrClose(e)
     [] e.ev = "notify.end" -> OnNotifyEnd(e)
